@@ -31,7 +31,7 @@ def cmd_setup():
         from . import loomx
 
         t0 = time.time()
-        loomx.build()
+        loomx.setup_build()
         print("loomx built (%.1fs)" % (time.time() - t0))
     except ImportError:
         pass
